@@ -1,4 +1,45 @@
+(* C04 -- The stateful interface mirrors the functional one; observations are never stale.
+   ienv = (_state, memoised _observation); istep = one operation (reset / step / read state / read observation) in the
+   Rand monad; a failing operation raises and leaves the machine as it was (irun).  Only statements; proofs are `exact`. *)
 From Coq Require Import ZArith List Bool.
 From GV.Model Require Import Env.
-Theorem C04_placeholder : True.
-Proof. exact I. Qed.
+From GV.Lemmas Require Import RandL C04L.
+Import ListNotations.
+Open Scope Z_scope.
+
+(* every successful stateful trajectory (any action sequence) is exactly a functional threading of the states, and conversely *)
+Theorem C04_stateful_refines_functional : forall e debug acts s mo outs m',
+  Leaf (drive e debug (mkIE (Some s) mo) acts) (Ok (outs, m')) <->
+  exists s', Leaf (thread e debug s acts) (Ok (outs, s')) /\ m' = mkIE (Some s') (match acts with [] => mo | _ => None end).
+Proof. exact drive_refines_thread. Qed.
+(* one-step equations: reset / step / fresh read are the functional operations on the current state *)
+Theorem C04_step_is_functional : forall e debug s mo a,
+  istep e debug (mkIE (Some s) mo) (OpStep a) =
+  bind (functional_step e debug s a) (fun out => let '(s', r, t) := out in Ret (mkIE (Some s') None, OutStep r t)).
+Proof. exact istep_step. Qed.
+Theorem C04_reset_is_functional : forall e debug m,
+  istep e debug m OpReset = bind (functional_reset e debug) (fun s => Ret (mkIE (Some s) None, OutUnit)).
+Proof. exact istep_reset. Qed.
+Theorem C04_fresh_read_is_functional : forall e debug s,
+  istep e debug (mkIE (Some s) None) OpReadObs =
+  bind (functional_observation e debug s) (fun o => Ret (mkIE (Some s) (Some o), OutObs o)).
+Proof. exact istep_obs_fresh. Qed.
+(* for every operation sequence and random outcome: an observation handed out belongs to the current state *)
+Theorem C04_observation_never_stale : forall e debug m m' o, reachable e debug m ->
+  Leaf (istep e debug m OpReadObs) (Ok (m', OutObs o)) ->
+  exists s, ie_state m = Some s /\ ie_state m' = Some s /\ Leaf (functional_observation e debug s) (Ok o).
+Proof. exact observation_never_stale. Qed.
+Theorem C04_memo_invariant : forall e debug m, reachable e debug m -> fresh e debug m.
+Proof. exact reachable_fresh. Qed.
+(* recomputed after every reset and step *)
+Theorem C04_reset_and_step_clear_memo : forall e debug m op m' out, (op = OpReset \/ exists a, op = OpStep a) ->
+  Leaf (istep e debug m op) (Ok (m', out)) -> ie_obs m' = None.
+Proof. exact reset_and_step_clear_memo. Qed.
+(* computed at most once per state: repeated reads return the same observation and draw nothing *)
+Theorem C04_read_idempotent : forall e debug m m1 o, Leaf (istep e debug m OpReadObs) (Ok (m1, OutObs o)) ->
+  istep e debug m1 OpReadObs = Ret (m1, OutObs o) /\
+  istep e debug m1 OpReadState = bind (the_state m1) (fun s => Ret (m1, OutState s)).
+Proof. exact read_idempotent. Qed.
+(* asking for the state (or observing, or stepping) before the first reset raises *)
+Theorem C04_state_before_reset : forall e debug op, op <> OpReset -> istep e debug ie_init op = Raise RuntimeError.
+Proof. exact state_before_reset. Qed.
